@@ -64,6 +64,9 @@ class EventBase(ObjectWithFields):
         """
         Get a list of all DASH options for this event
         """
+        def default_from_string(val: Any) -> str:
+            return str(val)
+
         def default_to_string(val: Any) -> str:
             return urllib.parse.quote_plus(str(val))
 
@@ -93,7 +96,7 @@ class EventBase(ObjectWithFields):
                 cgi_type = '<iso-datetime>'
                 cgi_choices = tuple([str(dflt)])
             else:
-                from_string = default_to_string
+                from_string = default_from_string
                 cgi_type = None
                 if dflt is not None:
                     cgi_choices = tuple(str(dflt))
